@@ -102,12 +102,12 @@ def set_part(oj, path, v):
 def cases_for_class(c, rng, thorough):
     """yield (ops_json, tag, bad) — tag = (slot, part, 'just'|'far'|'inside')"""
     shape = H.shape_of(c)
-    n_base = 2 if thorough else 1
+    n_base = 10 if thorough else 3
     for j, kind in enumerate(shape):
         for path, part in parts_of(kind):
             for cat, vals in (("just", JUST[part]), ("far", FAR[part]), ("inside", INSIDE[part])):
                 if cat == "far" and not thorough:
-                    vals = rng.sample(vals, min(4, len(vals)))
+                    vals = rng.sample(vals, min(7, len(vals)))
                 for v in vals:
                     for _ in range(n_base):
                         ops = [base_operand_json(k, rng) for k in shape]
